@@ -2,6 +2,7 @@
 from __future__ import annotations
 
 import ast
+import re
 import json
 import os
 import builtins
@@ -315,6 +316,22 @@ class Interp:
                 c = self.closure_of_real(fn)
                 if c is not None:
                     return self.call(c, args, kwargs, node)
+        recv0 = getattr(fn, '__self__', None)
+        if isinstance(recv0, dict) and not isinstance(fn, type) and getattr(fn, '__name__', '') in ('get', 'pop', 'setdefault') and args and is_sym(args[0]) \
+                and not hasattr(recv0, '__pyvc_getitem__'):
+            # d.get(k) / d.pop(k) / d.setdefault(k) with a SYMBOLIC key on a python dict (also a contract-side dict subclass): a native call would
+            # hash the symbolic key by identity and report "absent" whatever the key equals.  Decide the key first (one fork per existing key).
+            for kk in list(recv0):
+                eq = args[0] == kk
+                if eq is not False and self.truth(eq):
+                    return self._native_container_call(fn, [kk] + list(args[1:]), kwargs)
+            if fn.__name__ == 'get':
+                return args[1] if len(args) > 1 else kwargs.get('default')
+            if fn.__name__ == 'pop':
+                if len(args) > 1:
+                    return args[1]
+                self.ctx.raise_py(KeyError, 'key')
+            return self._native_container_call(fn, args, kwargs)  # setdefault of a key that differs from every existing one: a new entry
         if getattr(fn, '__pyvc_native__', False) or _is_proxy_method(fn) or getattr(type(fn), '__pyvc_stub__', False):
             return fn(*args, **kwargs)
         if isinstance(getattr(fn, '__self__', None), list) and not isinstance(fn, type) and fn.__name__ in _LIST_NATIVE:
@@ -892,6 +909,21 @@ class Interp:
             if _havocable(v):
                 self.setattr(o, attr, ctx.fresh_like(v, 'hv_%s_%s' % (base.replace('.', '_'), attr)))
             self.havoc_log.append('%s %s: field %s.%s' % (key, label, base, attr))
+        # containers written through a subscript / a dict mutator inside the cut body: `d[k] = v` leaves no assigned NAME behind, so the
+        # loop's exit state would otherwise still hold the entry-state mapping (unsound).  A symbolic dict gets a fresh array IN PLACE
+        # (aliases follow); a concrete python dict cannot be summarised -> the loop is out of reach unless the contract takes charge of it.
+        for base in sorted(subscript_mutated_in(body)):
+            if base in spec.no_auto:
+                continue
+            try:
+                o = self.eval(ast.parse(base, mode='eval').body, f)
+            except (KeyError, PyRaise, SyntaxError):
+                continue
+            if isinstance(o, core.SDict):
+                o.arr = core.SDict.fresh(ctx, 'hv_' + re.sub(r'\W', '_', base)).arr
+                self.havoc_log.append('%s %s: mapping %s (in place)' % (key, label, base))
+            elif isinstance(o, dict):
+                raise Unreached('python dict %r is written inside cut loop %s of %s: the loop contract must summarise it (no_auto) or it must be a symbolic mapping' % (base, label, key))
         for st in list(ctx.stubs):
             h = getattr(st, 'havoc', None)
             if h is not None:
@@ -1741,6 +1773,41 @@ def mutated_lists(body: List[ast.stmt]) -> set:
     for n in _walk_no_nested(mod):
         if isinstance(n, ast.Call) and isinstance(n.func, ast.Attribute) and n.func.attr in _LIST_MUTATORS and isinstance(n.func.value, ast.Name):
             out.add(n.func.value.id)
+    return out
+
+
+_DICT_MUTATORS = ('pop', 'popitem', 'update', 'setdefault', 'clear')
+
+
+def subscript_mutated_in(body: List[ast.stmt]) -> set:
+    """Source text of every expression X such that the body contains `X[k] = v`, `X[k] op= v`, `del X[k]` or `X.<dict mutator>(...)`."""
+    out: set = set()
+
+    def sub(t: ast.expr) -> None:
+        if isinstance(t, ast.Subscript):
+            try:
+                out.add(ast.unparse(t.value))
+            except Exception:
+                pass
+        elif isinstance(t, (ast.Tuple, ast.List)):
+            for e in t.elts:
+                sub(e)
+
+    mod = ast.Module(body=list(body), type_ignores=[])
+    for n in _walk_no_nested(mod):
+        if isinstance(n, ast.Assign):
+            for t in n.targets:
+                sub(t)
+        elif isinstance(n, (ast.AugAssign, ast.AnnAssign)):
+            sub(n.target)
+        elif isinstance(n, ast.Delete):
+            for t in n.targets:
+                sub(t)
+        elif isinstance(n, ast.Call) and isinstance(n.func, ast.Attribute) and n.func.attr in _DICT_MUTATORS:
+            try:
+                out.add(ast.unparse(n.func.value))
+            except Exception:
+                pass
     return out
 
 
